@@ -113,8 +113,8 @@ def check(rep, tier):
                     with impl.quiet():
                         S.opcond.cooling["end"] = warm
                         S.opcond.holding = [dict(h) for h in cfg2["prog"]["holds"]] or None
-                        S._rng = fr.CountingRng(S._rng)
-                        S.run()
+                        with fr.patched_rng(fr.CountingRng):
+                            S.run()
                     r2 = dict(r, XT=np.array(S.X_T), XS=np.array(S.X_sigma), stats={k: np.array(v) for k, v in S.stats.items()},
                               shelf=np.asarray(S.opcond.tempProfile(S.dt), dtype=float),
                               hshelf=np.broadcast_to(np.asarray(S.H_shelf, dtype=float), (r["N"],)).copy())
